@@ -155,6 +155,9 @@ func c11Structure(tb *Tables) []Outcome {
 		}
 		add("C11/missing/"+id, "%s", msg)
 	}
+	if d := tb.FreshTablesDiffer(); d != "" {
+		add("C11/table-aliasing", "a caller edited the values LicenseRanges()/GetLicenses()/GetDeprecated()/GetExceptions() had returned to it, and the next call returns something else: %s (the tables must not share storage with their callers)", d)
+	}
 	sort.Slice(out, func(i, j int) bool { return out[i].Key < out[j].Key })
 	return out
 }
